@@ -26,6 +26,27 @@ func init() { register("C13", runC13) }
 type c13NamedS string
 type c13NamedI int16
 
+// c13NamedB: a named type over []byte (finding C13-5)
+type c13NamedB []byte
+
+// c13Scan: a column type with its own Scan / Value written against driver.Value kinds, stored in an INT column
+// (finding C13-8: the change log hands an INT column over as int32)
+type c13Scan struct{ N int32 }
+
+func (s c13Scan) Value() (driver.Value, error) { return int64(s.N), nil }
+func (s *c13Scan) Scan(src interface{}) error {
+	switch x := src.(type) {
+	case int64:
+		s.N = int32(x)
+		return nil
+	case []byte:
+		n, err := strconv.ParseInt(string(x), 10, 32)
+		s.N = int32(n)
+		return err
+	}
+	return fmt.Errorf("c13Scan: int64 or []byte expected, got %T", src)
+}
+
 type c13Text struct{ V string }
 
 func (t c13Text) MarshalText() ([]byte, error) { return []byte("T:" + t.V), nil }
@@ -110,6 +131,10 @@ type c13Row struct {
 	NTxt c13Text   `sql:",string,implicitnull"`
 	PPTx *c13PText `sql:",string"`
 	PPBn *c13PBin  `sql:",binary"`
+	NmB  c13NamedB
+	PNmB *c13NamedB
+	Sc   c13Scan
+	PSc  *c13Scan
 }
 
 var c13Schema *sqlgen.Schema
@@ -261,6 +286,20 @@ func c13GenRow(r *Rand) *c13Row {
 	if r.Bool() {
 		row.PPBn = &c13PBin{N: uint16(c13Int(r, 16, false))}
 	}
+	switch r.Intn(3) {
+	case 1:
+		row.NmB = c13NamedB{}
+	case 2:
+		row.NmB = c13NamedB(c13Strings[r.Intn(len(c13Strings))] + "\xfe")
+	}
+	if r.Bool() {
+		v := c13NamedB(c13Strings[r.Intn(len(c13Strings))] + "p") // never nil inside: a pointer to a nil slice is NULL, as for *[]byte
+		row.PNmB = &v
+	}
+	row.Sc = c13Scan{N: int32(c13Int(r, 32, true))}
+	if r.Bool() {
+		row.PSc = &c13Scan{N: int32(c13Int(r, 32, true))}
+	}
 	return row
 }
 
@@ -289,8 +328,10 @@ func c13Cols() []*c13Col {
 			col.Kind = "enc"
 		case d.Type == reflect.TypeOf(time.Time{}):
 			col.Kind = "time"
-		case d.Type == reflect.TypeOf([]byte(nil)):
+		case d.Type.Kind() == reflect.Slice && d.Type.Elem().Kind() == reflect.Uint8:
 			col.Kind = "bytes"
+		case d.Type == reflect.TypeOf(c13Scan{}):
+			col.Kind = map[string]interface{}{"int": []interface{}{32, true}}
 		default:
 			switch d.Kind {
 			case reflect.Bool:
@@ -339,6 +380,8 @@ func c13Content(v reflect.Value) string {
 	case time.Time:
 		return "time:" + x.UTC().Format("2006-01-02 15:04:05")
 	case []byte:
+		return "bytes:" + string(x)
+	case c13NamedB:
 		return "bytes:" + string(x)
 	case c13Text:
 		b, _ := x.MarshalText()
@@ -396,6 +439,9 @@ func (c *c13Col) fv(v reflect.Value) interface{} {
 			return map[string]interface{}{"e": c.tok(c13Content(v))}
 		}
 	}
+	if sc, ok := v.Interface().(c13Scan); ok {
+		return map[string]interface{}{"i": []interface{}{32, true, int64(sc.N)}}
+	}
 	return c13IntFV(v)
 }
 
@@ -427,17 +473,27 @@ func (c *c13Col) dv(v driver.Value) interface{} {
 	case time.Time:
 		return map[string]interface{}{"time": c.tok(c13Content(reflect.ValueOf(x)))}
 	}
+	if rv := reflect.ValueOf(v); rv.Kind() == reflect.Slice && rv.Type().Elem().Kind() == reflect.Uint8 {
+		// driver.DefaultParameterConverter: a named byte slice goes to the driver as its bytes
+		return map[string]interface{}{"bytes": c.tok("bytes:" + string(rv.Bytes()))}
+	}
 	return map[string]interface{}{"unknown": fmt.Sprintf("%T", v)}
 }
 
 // c13Repr produces the Go value a source hands to Scan for stored value dv of column c.
 func c13Repr(rep string, c *c13Col, dv driver.Value) driver.Value {
+	if rv := reflect.ValueOf(dv); dv != nil && rv.Kind() == reflect.Slice && rv.Type() != reflect.TypeOf([]byte(nil)) && rv.Type().Elem().Kind() == reflect.Uint8 {
+		dv = append([]byte{}, rv.Bytes()...) // what MySQL stored
+	}
 	switch x := dv.(type) {
 	case int64:
 		switch rep {
 		case "text":
 			return []byte(strconv.FormatInt(x, 10))
 		case "binlog":
+			if c.Base == reflect.TypeOf(c13Scan{}) {
+				return int32(x) // an INT column
+			}
 			switch c.Base.Kind() {
 			case reflect.Int8, reflect.Uint8:
 				return int8(x)
@@ -622,7 +678,7 @@ func c13FilterValue(r *Rand, col *c13Col, row *c13Row) (interface{}, interface{}
 	if r.Chance(0.1) {
 		return nil, nil
 	}
-	if _, isInt := col.Kind.(map[string]interface{}); isInt {
+	if _, isInt := col.Kind.(map[string]interface{}); isInt && col.Base != reflect.TypeOf(c13Scan{}) {
 		base := fv
 		if base.Kind() == reflect.Ptr {
 			if base.IsNil() {
@@ -735,8 +791,16 @@ func runC13(c *Ctx) error {
 		return err
 	}
 	defer m.Close()
-	c13Setup()
-	c.Rep.Rule = "random values of a 37-column table struct (every integer width/signedness at its extremes, bool, float32/64, string, []byte nil/empty, time, pointers, implicitnull, named types, string/binary/json-tagged fields) x 3 source representations (int64 / text / typed binlog); filters shipped through the marshalled protobuf; every case non-trivial; distinct by the model encoding of the row"
+	if c.Replay == "" {
+		kfReproC13(c.Rep)
+	}
+	if p := safely(func() { c13Setup() }); p != nil {
+		// the reproducers above have the concrete inputs; the generated table cannot be built at all
+		c13Schema = nil
+		c.Rep.Fail("impl_ne_spec", nil, map[string]interface{}{"table": "c13Row"}, map[string]interface{}{"what": "a table struct made of supported field types is refused at registration", "panic": firstN(fmt.Sprint(p), 300)})
+		return nil
+	}
+	c.Rep.Rule = "random values of a 41-column table struct (every integer width/signedness at its extremes, bool, float32/64, string, []byte nil/empty, time, pointers, implicitnull, named types incl. a named []byte and a pointer to one, a column type with its own Scan / Value stored in an INT column, string/binary/json-tagged fields) x 3 source representations (int64 / text / typed binlog); filters shipped through the marshalled protobuf; every case non-trivial; distinct by the model encoding of the row"
 	c.Rep.Assumptions = append(c.Rep.Assumptions,
 		"Env laws (opaque tokens): strconv/encoding text of a float, the MySQL text of a time and the (un)marshalers of tagged fields parse back to the same value; exercised here on real values",
 		"source representations are produced by the harness the way database/sql (binary and text protocol) and go-mysql (typed, signed integers of the column width; strings) produce them",
@@ -755,7 +819,6 @@ func runC13(c *Ctx) error {
 		c13One(c, m, &f.Case)
 		return nil
 	}
-	kfReproC13(c.Rep)
 	n := c.N(1500, 80000)
 	var recent []*c13Row
 	for i := 0; i < n; i++ {
